@@ -62,11 +62,11 @@ func classify(err error) string {
 		return ""
 	}
 	switch {
-	case err == websocket.ErrCloseSent:
+	case errors.Is(err, websocket.ErrCloseSent):
 		return "ErrCloseSent"
-	case err == websocket.ErrReadLimit:
+	case errors.Is(err, websocket.ErrReadLimit):
 		return "ErrReadLimit"
-	case err == websocket.ErrBadHandshake:
+	case errors.Is(err, websocket.ErrBadHandshake):
 		return "ErrBadHandshake"
 	case err == io.EOF:
 		return "EOF"
@@ -94,15 +94,15 @@ func classify(err error) string {
 // Mask key source (installed through the verif hook).
 // ---------------------------------------------------------------------------
 
-const maxMaskKeys = 1 << 16
+const maxMaskBytes = 1 << 18
 
 type maskSource struct {
 	mu     sync.Mutex
 	state  uint64
-	issued [maxMaskKeys][4]byte
+	issued [maxMaskBytes]byte // every byte handed out in this run, in order
 	n      int
 	ovf    bool
-	odd    int // reads that were not exactly 4 bytes
+	reads  int
 }
 
 var (
@@ -128,46 +128,63 @@ func (m *maskSource) reset(seed uint64) {
 	m.state = seed
 	m.n = 0
 	m.ovf = false
-	m.odd = 0
+	m.reads = 0
 	m.mu.Unlock()
 	raceEnable()
 }
 
-// Read hands out key words. Some words are forced to the interesting values
-// 00000000 / ffffffff-like patterns rarely; every word is logged.
+// Read hands out pseudo-random bytes (any length: a library may fetch several
+// keys at once) and logs every byte.
 //
 //go:norace
 func (m *maskSource) Read(p []byte) (int, error) {
 	raceDisable()
 	m.mu.Lock()
-	var k [4]byte
-	v := splitmix(&m.state)
-	k[0], k[1], k[2], k[3] = byte(v), byte(v>>8), byte(v>>16), byte(v>>24)
-	if len(p) != 4 {
-		m.odd++
-	} else if m.n < maxMaskKeys {
-		m.issued[m.n] = k
-		m.n++
-	} else {
-		m.ovf = true
-	}
+	var tmp [64]byte
+	need := len(p)
+	m.reads++
 	m.mu.Unlock()
 	raceEnable()
-	return maskCopy(p, k)
-}
-
-// maskCopy writes into the library's buffer in instrumented code.
-func maskCopy(p []byte, k [4]byte) (int, error) {
-	n := copy(p, k[:])
-	for n < len(p) {
-		n += copy(p[n:], k[:])
+	off := 0
+	for need > 0 {
+		k := need
+		if k > len(tmp) {
+			k = len(tmp)
+		}
+		m.fill(tmp[:k])
+		maskCopy(p[off:off+k], tmp[:k])
+		off += k
+		need -= k
 	}
 	return len(p), nil
 }
 
 //go:norace
-func (m *maskSource) keys() [][4]byte {
-	out := make([][4]byte, m.n)
+func (m *maskSource) fill(b []byte) {
+	raceDisable()
+	m.mu.Lock()
+	for i := 0; i < len(b); i += 8 {
+		v := splitmix(&m.state)
+		for j := 0; j < 8 && i+j < len(b); j++ {
+			b[i+j] = byte(v >> (8 * j))
+		}
+	}
+	if m.n+len(b) <= maxMaskBytes {
+		copy(m.issued[m.n:], b)
+		m.n += len(b)
+	} else {
+		m.ovf = true
+	}
+	m.mu.Unlock()
+	raceEnable()
+}
+
+// maskCopy writes into the library's buffer in instrumented code.
+func maskCopy(p []byte, k []byte) { copy(p, k) }
+
+//go:norace
+func (m *maskSource) stream() []byte {
+	out := make([]byte, m.n)
 	copy(out, m.issued[:m.n])
 	return out
 }
